@@ -98,6 +98,35 @@ def c10_2(rep, ix, R="C10.2"):
             if isinstance(n, ast.Try):
                 for h in n.handlers:
                     rep.check(always_raises(h.body), R, ix.site(f, h), "%s: no exception handler absorbs an error of the parse" % q, key=q + "|swallow")
+    # the caller's text is looked at by the lexer and by nothing else: every use of the text / stream parameter of the API functions and of
+    # the pipeline is its hand-over to the stream, lexer or parse call (or, for a file name, to os.path)
+    ALLOWED_CONSUMERS = ("InputStream", "FileStream", "blackbirdLexer", "parse", "dirname", "abspath", "realpath", "join", "basename", "fspath", "isinstance", "Path", "str")
+    for q in sorted({"listener.parse", "__init__.load", "__init__.loads"} | {x for x in pipelines if not ix.funcs[x].cls}):
+        if q not in ix.funcs:
+            continue
+        f = ix.func(q)
+        fn = getattr(f, "orig", None) or f.node
+        params = [a.arg for a in fn.args.posonlyargs + fn.args.args if a.arg not in ("self", "cls")]
+        if not params:
+            continue
+        p0 = params[0]
+        parents = {}
+        for n in ast.walk(fn):
+            for c_ in ast.iter_child_nodes(n):
+                parents[id(c_)] = n
+        for x in [n for n in ast.walk(fn) if isinstance(n, ast.Name) and n.id == p0 and isinstance(n.ctx, ast.Load)]:
+            par = parents.get(id(x))
+            okuse = isinstance(par, ast.Call) and x in par.args and u(par.func).split(".")[-1] in ALLOWED_CONSUMERS
+            if okuse and u(par.func).split(".")[-1] == "str":
+                # str(text) is still the text: what matters is where *that* goes
+                gp = parents.get(id(par))
+                okuse = isinstance(gp, ast.Call) and par in gp.args and u(gp.func).split(".")[-1] in ALLOWED_CONSUMERS[:-1]
+            if isinstance(par, ast.keyword):
+                gp = parents.get(id(par))
+                okuse = isinstance(gp, ast.Call) and u(gp.func).split(".")[-1] in ALLOWED_CONSUMERS
+            rep.check(okuse, R, ix.site(f, x), "%s: `%s` is handed to the stream / lexer / parse call and used nowhere else" % (q.split(".")[-1], p0),
+                      "`%s` reads the script text outside the generated lexer: whatever that code accepts, rejects or rewrites is a second definition of the language, layout included"
+                      % (" ".join(u(par).split())[:60] if par is not None else p0), key="%s|text use|%s" % (q, " ".join(u(par).split())[:40] if par is not None else ""))
     for q in pipelines:
         f = ix.func(q)
         fn = f.node
